@@ -166,7 +166,7 @@ def exFMap : Gen.RsHermes.HermesFunctionMap :=
   { names := [[97], [98]],
     mappings := [{ line := 1, column := 0, name_index := 0 }, { line := 1, column := 10, name_index := 1 },
       { line := 3, column := 2, name_index := 0 }] }
-def exHermes : Gen.RsHermes.SourceMapHermes := { function_maps := [some exFMap, none] }
+def exHermes : Gen.RsHermes.SourceMapHermes := { sm := { tokens := [], names := [] }, function_maps := [some exFMap, none] }
 def exTok (src line col off : Nat) : Gen.RsTypes.Token :=
   { raw := { dst_line := 0, dst_col := 0, src_line := line, src_col := col, src_id := src,
              name_id := 4294967295, is_range := off ≠ 0 },
